@@ -344,6 +344,12 @@ def _key_identity(run: Run, prog: Program, model: Model, fn: Any, paths: List[Pa
 
 FN = "d42/utils/_from_native.py"
 MUTANTS = [
+    {"name": "members interned per conversion in a dict keyed by the bare value", "rule": "CROSS-MEMBER",
+     "edits": [(FN, "def from_native(value: Any) -> GenericSchema:\n    if value is None:", "def from_native(value: Any) -> GenericSchema:\n    return _convert(value, {})\n\n\ndef _convert(value: Any, interned: Any) -> GenericSchema:\n    if value is None:"),
+               (FN, "    elif isinstance(value, int):\n        return IntSchema()(value)\n    elif isinstance(value, float):\n        return FloatSchema()(value)\n",
+                "    elif isinstance(value, (int, float)):\n        if value not in interned:\n            interned[value] = IntSchema()(value) if isinstance(value, int) else FloatSchema()(value)\n        return interned[value]\n"),
+               (FN, "        return ListSchema()([from_native(x) for x in value])", "        return ListSchema()([_convert(x, interned) for x in value])"),
+               (FN, "        return DictSchema()({key: from_native(val) for key, val in value.items()})", "        return DictSchema()({key: _convert(val, interned) for key, val in value.items()})")]},
     {"name": "list arm drops the last member", "rule": "ARM",
      "edits": [(FN, "[from_native(x) for x in value]", "[from_native(x) for x in value[:-1]]")]},
     {"name": "dict arm filters None members", "rule": "ARM",
